@@ -156,7 +156,7 @@ def confirm_playback(harness):
 
 
 HARNESSES = {
-    "k_keycode_total": dict(confirm=confirm_keycode_total, bound="all 2^16 key codes restricted to the published set of riti.h"),
+    "k_keycode_total": dict(confirm=confirm_keycode_total, bound="all 2^16 key codes"),
     "k_keycode_table": dict(confirm=confirm_keycode_table, bound="all published keys whose name denotes a character"),
     "k_get_modifiers": dict(confirm=confirm_get_modifiers, bound="all 256 modifier bytes"),
     "k_english_mask": dict(confirm=confirm_english_mask, bound="both flags symbolic"),
